@@ -33,25 +33,26 @@
 /* X: exp64 | crc */
 #define X_OK (FOFF + 12 <= TL)
 #define PLAUSIBLE(ms) ((ms) > 0 && (ms) <= 10413792000000LL)
-#define NS(ms) (iora_tp_from_ms(ms))                       /* exact (no wrap) where NS_SAFE(ms) */
-#define NS_SAFE(ms) ((ms) <= 9223372036854LL)
 #define IMPL(a, b) (!(a) || (b))
 
 /* ---- one iteration of the replay loop (block target KVStore_load_step = the real `while (log.peek() != EOF) {...}` with the
  * header turned into a guard and break/continue into status codes), for EVERY state satisfying the loop invariant of proof
  * replay_loop (stream good, 0 <= pos <= n) and every file content.  Plain loop-free harness = complete proof. */
-#define STEP_SETUP \
+/* BPRE: what is assumed about the boundary b.  The framing and safety proofs take ANY b <= n.  The decode proofs view the file from the
+ * boundary (b == 0, LOG = the rest of the file): the stream shim depends on (p + pos, n - pos) only, so this is no restriction, and it removes
+ * one 64-bit addition from every array index (measured: E1 88 s -> 6 s). */
+#define STEP_SETUP(BPRE) \
   size_t LOG_N = nondet_size_t(); __CPROVER_assume(LOG_N <= ((size_t)1 << 40)); \
   uint8_t *LOG = (uint8_t *)malloc(LOG_N); __CPROVER_assume(LOG != NULL); \
   iora_gfile gf; gf.exists = true; gf.p = LOG; gf.n = LOG_N; \
-  size_t b = nondet_size_t(); __CPROVER_assume(b <= LOG_N);                  /* loop invariant: read position inside the file */ \
+  size_t b = nondet_size_t(); __CPROVER_assume(b <= LOG_N); __CPROVER_assume(BPRE);    /* loop invariant: read position inside the file */ \
   iora_ifs log; log.open = true; log.fail = false; log.eof = false; log.p = LOG; log.n = LOG_N; log.pos = b; \
   KVStore st; st._logPath = &gf; \
   st._kv.has = nondet_bool(); st._kv.val.n = nondet_size_t(); st._kv.touched = false; st._kv.gtouched = false; \
   st._expiry.has = nondet_bool(); st._expiry.val.expiry = nondet_i64(); st._expiry.val.timerId = nondet_u64(); st._expiry.touched = false; st._expiry.gtouched = false; \
   bool kv_has0 = st._kv.has; iora_vec kv_val0 = st._kv.val; bool ex_has0 = st._expiry.has; ExpiryEntry ex_val0 = st._expiry.val; \
   iora_tp now = nondet_i64(); GK = nondet_size_t(); \
-  G_alloc_cap = REC_CAP; G_step = IORA_STEP_NEXT; G_crc_called = false; G_skey_made = false; G_ifs_boundary = nondet_size_t(); iora_exc = EXC_NONE; IORA_TRUE = 1; \
+  G_alloc_cap = REC_CAP; G_step = IORA_STEP_NEXT; G_crc_called = false; G_skey_made = false; G_fromms_called = false; G_ifs_boundary = nondet_size_t(); iora_exc = EXC_NONE; IORA_TRUE = 1; \
   KVStore_load_step(&st, &log, now); \
   bool touched = st._kv.touched || st._expiry.touched; \
   iora_skey LK = st._kv.touched ? st._kv.lastkey : st._expiry.lastkey; \
@@ -72,14 +73,14 @@
  * shim preconditions (read destinations, string(ptr,n) source, iterator ranges, allocation cap) */
 void h_step_safety(void)
 {
-  STEP_SETUP
+  STEP_SETUP(b <= LOG_N)
   __CPROVER_assert(iora_exc == EXC_NONE || iora_exc == EXC_KVStoreException, "X1 only KVStoreException");
 }
 
 /* proof "step_framing": framing of the iteration */
 void h_step_framing(void)
 {
-  STEP_SETUP
+  STEP_SETUP(b <= LOG_N)
   __CPROVER_assert(IMPL(AVAIL == 0, G_step == IORA_STEP_NEXT && !touched && log.pos == b && !log.fail), "F0 at the end of the file the loop is left and nothing happens");
   __CPROVER_assert(IMPL(iora_exc == EXC_NONE, G_ifs_boundary == b), "F1 peek() is called exactly at the record boundary");
   __CPROVER_assert(IMPL(AVAIL > 0 && !COMPLETE && iora_exc == EXC_NONE, G_step == IORA_STEP_BREAK), "F2 short read or invalid length => the loop is left (break)");
@@ -92,7 +93,7 @@ void h_step_framing(void)
 /* proof "step_crc": CRC gating */
 void h_step_crc(void)
 {
-  STEP_SETUP
+  STEP_SETUP(b == 0)
   __CPROVER_assert(IMPL(COMPLETE, G_crc_called && G_crc_n == TL - 4), "C1 crc32 is computed over len32-4 bytes of every complete record");
   __CPROVER_assert(IMPL(COMPLETE && GK < TL - 4, G_crc_p[GK] == LOG[P0 + GK]), "C2 the bytes crc32 is computed over are the record's payload bytes (arbitrary byte GK)");
   __CPROVER_assert(IMPL(touched, crc_match), "C3 a record is applied only if crc32(payload) equals the stored trailer");
@@ -102,7 +103,7 @@ void h_step_crc(void)
 /* proof "step_decode_key": op and key are the inverse of enc */
 void h_step_decode_key(void)
 {
-  STEP_SETUP
+  STEP_SETUP(b == 0)
   __CPROVER_assert(IMPL(touched, OP_OK && KEY_OK), "D1 applied => known op and 1 <= klen <= 65536 inside the record");
   __CPROVER_assert(IMPL(COMPLETE && crc_match && !(OP_OK && KEY_OK), G_step == IORA_STEP_CONTINUE && !touched), "D2 unknown op / bad key length => skipped");
   __CPROVER_assert(IMPL(touched, LK.n == KL), "D3 decoded key length == klen32");
@@ -114,7 +115,7 @@ void h_step_decode_key(void)
 /* proof "step_apply_SD": S and D records */
 void h_step_apply_sd(void)
 {
-  STEP_SETUP
+  STEP_SETUP(b == 0)
   __CPROVER_assert(IMPL(COMPLETE && crc_match && OPB == OP_S && KEY_OK && S_OK, KV.touched && EX.touched), "S1 a complete, CRC-correct, well-formed S record IS applied (acknowledged writes are recovered)");
   __CPROVER_assert(IMPL(touched && OPB == OP_S, S_OK), "S2 S applied => vlen32 and value inside the record");
   __CPROVER_assert(IMPL(touched && OPB == OP_S && LK.is_g, KV.has && KV.val.n == S_VL && !EX.has), "S3 S: key present with |val| == vlen32; a plain set clears the expiry");
@@ -127,25 +128,87 @@ void h_step_apply_sd(void)
 /* proofs "step_apply_e" / "step_apply_x": E and X records (decoding; the expired-at-load / implausible cases are clauses of unit kv_expiry, C12) */
 void h_step_apply_e(void)
 {
-  STEP_SETUP
+  STEP_SETUP(b == 0)
   __CPROVER_assert(IMPL(COMPLETE && crc_match && OPB == OP_E && KEY_OK && E_OK && PLAUSIBLE(E_EXP), KV.touched && EX.touched), "E1 a complete, CRC-correct, well-formed E record IS applied");
   __CPROVER_assert(IMPL(touched && OPB == OP_E, E_OK && PLAUSIBLE(E_EXP)), "E2 E applied => fields inside the record, expiry plausible");
-  __CPROVER_assert(IMPL(touched && OPB == OP_E && LK.is_g && NS_SAFE(E_EXP) && NS(E_EXP) > now, KV.has && KV.val.n == E_VL && EX.has && EX.val.expiry == NS(E_EXP) && EX.val.timerId == 0),
-                   "E3 E (not yet expired): key present with |val| == vlen32 and expiry == exp64 ms");
+  __CPROVER_assert(IMPL(touched && OPB == OP_E, G_fromms_called && G_fromms_arg == E_EXP), "E3a E: the expiry handed to fromEpochMs is the record's exp64 field");
+  __CPROVER_assert(IMPL(touched && OPB == OP_E && LK.is_g && G_fromms_ret > now, KV.has && KV.val.n == E_VL && EX.has && EX.val.expiry == G_fromms_ret && EX.val.timerId == 0),
+                   "E3 E (not yet expired): key present with |val| == vlen32, expiry == fromEpochMs(exp64), no timer armed");
   __CPROVER_assert(IMPL(COMPLETE && crc_match && OPB == OP_E && KEY_OK && !(E_OK && PLAUSIBLE(E_EXP)), !touched), "E5 malformed E => skipped");
 }
 void h_step_apply_e_bytes(void)
 {
-  STEP_SETUP
+  STEP_SETUP(b == 0)
   __CPROVER_assert(IMPL(touched && OPB == OP_E && LK.is_g && KV.has && GK < E_VL, KV.val.p[GK] == LOG[P0 + FOFF + 12 + GK]), "E4 E: value bytes == record bytes (arbitrary byte GK)");
 }
 void h_step_apply_x(void)
 {
-  STEP_SETUP
+  STEP_SETUP(b == 0)
   __CPROVER_assert(IMPL(touched && OPB == OP_X, X_OK), "X1 X applied => exp64 inside the record");
   __CPROVER_assert(IMPL(COMPLETE && crc_match && OPB == OP_X && KEY_OK && !X_OK, !touched), "X2 malformed X => skipped");
   __CPROVER_assert(IMPL(OPB == OP_X && touched && LK.is_g, kv_has0), "X3 X is applied only to a present key");
   __CPROVER_assert(IMPL(OPB == OP_X && touched && LK.is_g && E_EXP == IORA_LIMIT_int64_t_min, UNCHANGED_KV && !EX.has), "X4 X with the no-expiry sentinel (persist): expiry cleared, value untouched");
-  __CPROVER_assert(IMPL(OPB == OP_X && touched && LK.is_g && PLAUSIBLE(E_EXP) && NS_SAFE(E_EXP) && NS(E_EXP) > now, UNCHANGED_KV && EX.has && EX.val.expiry == NS(E_EXP) && EX.val.timerId == 0), "X5 X (future expiry): expiry == exp64 ms, value untouched");
+  __CPROVER_assert(IMPL(OPB == OP_X && touched && LK.is_g && E_EXP != IORA_LIMIT_int64_t_min, PLAUSIBLE(E_EXP) && G_fromms_called && G_fromms_arg == E_EXP), "X5a X: the expiry handed to fromEpochMs is the record's exp64 field, and it is plausible");
+  __CPROVER_assert(IMPL(OPB == OP_X && touched && LK.is_g && E_EXP != IORA_LIMIT_int64_t_min && G_fromms_ret > now, UNCHANGED_KV && EX.has && EX.val.expiry == G_fromms_ret && EX.val.timerId == 0), "X5 X (future expiry): expiry == fromEpochMs(exp64), value untouched");
   __CPROVER_assert(IMPL(COMPLETE && crc_match && OPB == OP_X && KEY_OK && X_OK && kv_has0 && G_skey_made && G_skey_last.is_g && (E_EXP == IORA_LIMIT_int64_t_min || PLAUSIBLE(E_EXP)), EX.touched), "X6 a complete, CRC-correct X record for a present key IS applied");
 }
+
+/* ---- the whole log phase of load() (block target KVStore_load_log: from the ifstream to the end of the function), loop contract
+ * IORA_LOOP_KVStore_load_log_1 (applied without DFCC: the DFCC form of this loop is 3.2 M variables / 22 M clauses, no verdict in 900 s).
+ * Proved: the invariant is established by the open, preserved by every iteration, the loop terminates (bytes left strictly decrease), and
+ *   K1  after load(), the size of the log file - i.e. the position at which openLogFile()'s ios::app stream appends - equals the last
+ *       record boundary (the stream position at the last peek()).  Otherwise the records acknowledged from now on are written BEHIND a torn
+ *       tail and are swallowed by its length field at the next start (acknowledged writes lost: finding K1). */
+void h_load_log(void)
+{
+  size_t LOG_N = nondet_size_t(); __CPROVER_assume(LOG_N <= ((size_t)1 << 40));
+  uint8_t *LOG = (uint8_t *)malloc(LOG_N); __CPROVER_assume(LOG != NULL);
+  iora_gfile gf; gf.exists = nondet_bool(); gf.p = LOG; gf.n = LOG_N; __CPROVER_assume(gf.exists || gf.n == 0);
+  KVStore st; st._logPath = &gf;
+  st._kv.has = nondet_bool(); st._kv.val.n = nondet_size_t(); st._kv.touched = false; st._kv.gtouched = false;
+  st._expiry.has = nondet_bool(); st._expiry.val.expiry = nondet_i64(); st._expiry.val.timerId = nondet_u64(); st._expiry.touched = false; st._expiry.gtouched = false;
+  iora_tp now = nondet_i64();
+  G_alloc_cap = REC_CAP; G_ifs_boundary = 0; iora_exc = EXC_NONE; IORA_TRUE = 1;
+  bool existed = gf.exists;
+  KVStore_load_log(&st, now);
+  IORA_CANARY("h_load_log: returns");
+  if (existed && LOG_N > 0) { IORA_CANARY("h_load_log: returns after replaying a non-empty log"); }
+  __CPROVER_assert(IMPL(iora_exc == EXC_NONE, gf.n == G_ifs_boundary), "K1 after load() the log file ends at the last record boundary, so openLogFile() (ios::app) appends where the next load will look for a record");
+  __CPROVER_assert(gf.n <= LOG_N && gf.exists == existed, "L1 the log file only ever shrinks during load()");
+  __CPROVER_assert(iora_exc == EXC_NONE || iora_exc == EXC_KVStoreException, "L2 only KVStoreException");
+}
+
+/* openLogFile(): the log is opened in APPEND mode, so the append position is the size of the file at that moment */
+void KVStore_openLogFile_contract(KVStore *self)
+__CPROVER_requires(IORA_TRUE && iora_exc == EXC_NONE && __CPROVER_is_fresh(self, sizeof(*self)) && __CPROVER_is_fresh(self->_logPath, sizeof(iora_gfile)))
+__CPROVER_requires((!self->_logPath->exists ==> self->_logPath->n == 0) && !G_append_open)
+__CPROVER_assigns(self->_logStream, iora_exc, G_append_open, G_append_pos, self->_logPath->exists, self->_logPath->n)
+/* O1 */ __CPROVER_ensures(iora_exc == EXC_NONE ==> (self->_logStream.open && G_append_open && G_append_pos == __CPROVER_old(self->_logPath->n)))
+/* O2 */ __CPROVER_ensures(self->_logPath->n == __CPROVER_old(self->_logPath->n))
+/* O3 */ __CPROVER_ensures(iora_exc != EXC_NONE ==> (iora_exc == EXC_KVStoreException && !self->_logStream.open))
+;
+void h_open_log(void)
+{
+  KVStore *self;
+  KVStore_openLogFile(self);
+  IORA_CANARY("h_open_log: returns");
+  if (iora_exc == EXC_NONE) { IORA_CANARY("h_open_log: opened"); } else { IORA_CANARY("h_open_log: failed"); }
+}
+
+#ifdef IORA_SEARCH
+/* SEARCH: the same block on a small concrete-size log (bounded; only to obtain a file content for REPLAY) */
+void h_search(void)
+{
+  uint8_t IN[20]; size_t IN_N = nondet_size_t();
+  IORA_NONDET_BYTES(IN, 20);
+  __CPROVER_assume(IN_N <= 20);
+  iora_gfile gf; gf.exists = true; gf.p = IN; gf.n = IN_N;
+  KVStore st; st._logPath = &gf;
+  st._kv.has = false; st._kv.val.n = 0; st._kv.touched = false; st._kv.gtouched = false;
+  st._expiry.has = false; st._expiry.touched = false; st._expiry.gtouched = false;
+  iora_tp now = nondet_i64();
+  G_alloc_cap = REC_CAP; G_ifs_boundary = 0; iora_exc = EXC_NONE; IORA_TRUE = 1;
+  KVStore_load_log(&st, now);
+  __CPROVER_assert(IMPL(iora_exc == EXC_NONE, gf.n == G_ifs_boundary), "K1 after load() the log file ends at the last record boundary, so openLogFile() (ios::app) appends where the next load will look for a record");
+}
+#endif
